@@ -160,7 +160,11 @@ func main() {
 	cfg.scratch = scratch
 	code := 2
 	func() {
-		defer os.RemoveAll(scratch)
+		if os.Getenv("VERIF_KEEP") == "" {
+			defer os.RemoveAll(scratch)
+		} else {
+			fmt.Fprintln(os.Stderr, "scratch kept:", scratch)
+		}
 		switch os.Args[1] {
 		case "check":
 			if len(pos) < 1 {
